@@ -71,7 +71,8 @@ def write_input_assign(path):
     """Clustered input for --assign-loss-prob: a truncal cluster spread over six chromosomes, a subclone confined to one
     chromosome (a candidate lost cluster), a subclone spread over four; the cluster table carries sample, prevalence and
     chromosome columns as PyClone-VI writes them."""
-    cl = {"K0": ((0.95, 0.95), (1, 2, 3, 4, 5, 6)), "K1": ((0.3, 0.05), (7, 7, 7, 7)), "K2": ((0.05, 0.4), (1, 2, 3, 4))}
+    # (the truncal cluster holds 36 mutations: large clusters are summed by other code paths than small ones may be)
+    cl = {"K0": ((0.95, 0.95), tuple(1 + (i % 6) for i in range(36))), "K1": ((0.3, 0.05), (7, 7, 7, 7)), "K2": ((0.05, 0.4), (1, 2, 3, 4))}
     rows = ["mutation_id\tsample_id\tref_counts\talt_counts\tmajor_cn\tminor_cn\tnormal_cn"]
     crows = ["mutation_id\tsample_id\tcluster_id\tcellular_prevalence\tchrom"]
     for cid, (ccf, chroms) in cl.items():
@@ -277,8 +278,10 @@ def run(corrupt=None):
              ("h2_delay_chain1", dict(hashseed=2, delays="0:0,1:6"))]
     runs = [launch(l, workdir, in_file, seed, 2, **kw) for l, kw in plans]
     singles = [launch("single_h0", workdir, in_file, seed, 1, hashseed=0), launch("single_h99", workdir, in_file, seed, 1, hashseed=99, one_core=True)]
+    seed0 = [launch("seed0_a", workdir, in_file, 0, 1, hashseed=0), launch("seed0_b", workdir, in_file, 0, 1, hashseed=0)]      # --seed 0 is a seed too
     runs = [collect(r) for r in runs]
     singles = [collect(r) for r in singles]
+    seed0 = [collect(r) for r in seed0]
     extra_groups = []
     # --assign-loss-prob: the loss priors are drawn with the main generator before the chains are spawned
     in_assign = os.path.join(workdir, "in_assign.tsv")
@@ -316,7 +319,7 @@ def run(corrupt=None):
             grp = [launch("g%d_%s" % (gi, l), workdir, in_file, seed + 1 + gi, 3, extra=("--proposal", prop, "--outlier-prob", op), **kw)
                    for l, kw in (("h0", dict(hashseed=0)), ("h7_onecore", dict(hashseed=7, one_core=True)), ("h3_delayed", dict(hashseed=3, delays="0:7,1:3,2:0")))]
             extra_groups.append([collect(r) for r in grp])
-    for grp, what in [(runs, "2 chains")] + [(singles, "1 chain")] + [(assign_group, "2 chains, --assign-loss-prob"), (assign_single, "1 chain, --assign-loss-prob"), (shared_group, "3 chains, one worker process runs them all")] + [(g, "2 chains on 6 mutations, one worker process runs both (#%d)" % gi) for gi, g in enumerate(six_groups)] + [(timing_group, "1 chain, 512-point grid, timing of the convolution routines perturbed")] + [(g, "3 chains") for g in extra_groups]:
+    for grp, what in [(runs, "2 chains")] + [(singles, "1 chain"), (seed0, "1 chain, --seed 0 twice")] + [(assign_group, "2 chains, --assign-loss-prob"), (assign_single, "1 chain, --assign-loss-prob"), (shared_group, "3 chains, one worker process runs them all")] + [(g, "2 chains on 6 mutations, one worker process runs both (#%d)" % gi) for gi, g in enumerate(six_groups)] + [(timing_group, "1 chain, 512-point grid, timing of the convolution routines perturbed")] + [(g, "3 chains") for g in extra_groups]:
         for r in grp:
             if r["rc"] != 0 or "chains" not in r:
                 raise RuntimeError("phyclone run failed in the harness (%s): %s" % (r["label"], r["stdout_tail"][-800:]))
@@ -327,6 +330,8 @@ def run(corrupt=None):
             pert = "hash seed %s -> %s%s%s" % (base["hashseed"], other["hashseed"], ", one core" if other["one_core"] else "", ", start delays" if other["delays"] else "")
             if "marks" in other:
                 pert = "each chain in its own worker process -> one worker process executes several chains"
+            if other["label"].startswith("seed0_"):
+                pert = "the same run with --seed 0 repeated"
             if other["label"].startswith("timing_"):
                 pert = "first calls of the direct convolution routine slowed -> first calls of the FFT routine slowed"
             compare(ck, base, other, pert)
